@@ -59,6 +59,7 @@ func (c17) Plan(tier string, seed int64) []core.Scenario {
 		}
 		if tier == "thorough" || cfg == 0 {
 			out = append(out, core.Sc("silent").WithN("cfg", cfg).WithN("pt", 5).WithN("sp", 0))
+			out = append(out, core.Sc("silent").WithN("cfg", cfg).WithN("pt", 6).WithN("sp", 1))
 		}
 	}
 	// the same healthy workloads on a link that was re-established once (keepalive must have been set up again)
@@ -286,8 +287,12 @@ func (c17) once(sc core.Scenario, scale int) (fails []core.Violation, key string
 	nontrivial = true
 	var pending *Outcome
 	var g *got
+	if pt == 6 {
+		env.Px.SetRefuse(true) // the peer stays unreachable: redials fail until the end of the scenario
+		defer env.Px.SetRefuse(false)
+	}
 	switch pt {
-	case 1:
+	case 1, 6:
 		t := Tok("h")
 		env.Svc.Hold(t)
 		pending = Go(t, func() (string, error) { return cl.Echo(bg, t, "") })
@@ -361,10 +366,10 @@ func (c17) once(sc core.Scenario, scale int) (fails []core.Violation, key string
 	if g != nil && !core.WaitCh(g.done, bound) {
 		fail("silent-peer-undetected", "subscription channel not closed within %v of the peer falling silent", bound)
 	}
-	if !core.Eventually(bound, func() bool { return env.Px.Accepts() > acc }) {
+	if pt != 6 && !core.Eventually(bound, func() bool { return env.Px.Accepts() > acc }) {
 		fail("silent-peer-no-redial", "no redial reached the proxy within %v of the peer falling silent (timeout %v)", bound, timeout)
 	}
-	sample = map[string]interface{}{"client_ping": cfg[0].String(), "client_timeout": cfg[1].String(), "blackhole_at": []string{"idle", "call in flight", "subscription open", "application keeps calling", "in the middle of a response frame", "from the handshake of a re-established connection on, application keeps calling"}[pt], "detected_after": time.Since(t0).String(), "scale": scale}
+	sample = map[string]interface{}{"client_ping": cfg[0].String(), "client_timeout": cfg[1].String(), "blackhole_at": []string{"idle", "call in flight", "subscription open", "application keeps calling", "in the middle of a response frame", "from the handshake of a re-established connection on, application keeps calling", "call in flight, peer unreachable for redials too"}[pt], "detected_after": time.Since(t0).String(), "scale": scale}
 	env.Svc.ReleaseAll()
 	return
 }
